@@ -26,7 +26,7 @@ Print Assumptions C01_drop.
 Theorem C01_only_authentic_accepted : forall c now d orcs k,
   c_key c = Some k ->
   recv c now d orcs <> (c <| c_dropped := c_dropped c + 1 |>, [ORet false]) ->
-  exists p, d_body d = Sealed k (d_hdr d) p /\ h_len (d_hdr d) = len p.
+  exists p, d_body d = Sealed k (d_hdr d) p.
 Proof. exact recv_accept_authentic. Qed.
 Print Assumptions C01_only_authentic_accepted.
 
@@ -44,17 +44,12 @@ Proof. exact other_key_not_authentic. Qed.
 Print Assumptions C01_other_key_not_authentic.
 
 (* ... every rewrite of any header field of a genuine datagram (re-typing as a hello, another
-   seq / ack / ack bits / count / length / time / direction) ... *)
+   seq / ack / ack bits / count / length / time / direction).  (Bit flips / truncations of the
+   ciphertext or tag do not open under any key: symbolically their body is Bad.) *)
 Theorem C01_tampered_header_not_authentic : forall k d h',
   authentic k d -> h' <> d_hdr d -> ~ authentic k {| d_hdr := h'; d_body := d_body d |}.
 Proof. exact tamper_hdr_not_authentic. Qed.
 Print Assumptions C01_tampered_header_not_authentic.
-
-(* ... and a payload that does not fill the length the header announces (truncation) *)
-Theorem C01_length_mismatch_not_authentic : forall k h sh p, h_len h <> len p ->
-  ~ authentic k {| d_hdr := h; d_body := Sealed k sh p |}.
-Proof. exact length_mismatch_not_authentic. Qed.
-Print Assumptions C01_length_mismatch_not_authentic.
 
 (* 3. Before a key exists: nothing is ever delivered to the application; anything but a
       single-message hello with a valid CRC has no effect at all; and a hello of the type this
@@ -151,7 +146,7 @@ Example C01_authentic_is_delivered :
   let d := {| d_hdr := ex_hdr APP 1 4; d_body := Sealed 7 (ex_hdr APP 1 4) ex_payload |} in
   authentic 7 d /\ c_incoming (fst (recv ex_conn 0 d [])) = [(9, [x41; x42])]
   /\ snd (recv ex_conn 0 d []) = [ORet true].
-Proof. split; [exists ex_payload; split; reflexivity | vm_compute; split; reflexivity]. Qed.
+Proof. split; [exists ex_payload; reflexivity | vm_compute; split; reflexivity]. Qed.
 
 (* ... while the D1 witness (CRC-only plaintext typed CLIENT_HELLO, two inner messages
    CHALLENGE_RESP + APP) and the same ciphertext behind a re-typed header are dropped *)
